@@ -239,7 +239,10 @@ func runC10(c *Ctx) {
 				inLoop[b] = true
 			}
 		}
-		isHTTPS := factEqString(func(v ssa.Value) bool { ok, _ := allOrigins(v, func(o Origin) bool { ad, okk := derefLoad(o.V); return okk && ad == ssa.Value(l.Elem) }); return ok }, "https", true)
+		isHTTPS := factEqString(func(v ssa.Value) bool {
+			ok, _ := allOrigins(v, func(o Origin) bool { ad, okk := derefLoad(o.V); return okk && ad == ssa.Value(l.Elem) })
+			return ok
+		}, "https", true)
 		for b := range inLoop {
 			for i, s := range b.Succs {
 				if inLoop[s] || b == l.Header {
